@@ -209,3 +209,56 @@ def _comp_hook(models, it, e, iterable, fr, kind):
 
 
 HOOKS["comp"].append(_comp_hook)
+
+
+# -- mean / std of a list (axiomatised uninterpreted functions of (array, lo, hi)) -----------------
+def _seq_of(it, v, node=None):
+    if isinstance(v, SOpt):
+        v = it.run.unopt(v, "sequence")
+    if isinstance(v, Ref):
+        o = it.run.obj(v)
+        if isinstance(o, HList):
+            o = it.list_to_seq(o)
+        if isinstance(o, HSeq):
+            return o
+    raise Unsupported("mean/std of %r" % (v,), node)
+
+
+def seq_stat(models, it, name, v, node=None):
+    o = _seq_of(it, v, node)
+    arr = o.arr
+    if arr.sort().range() == INT:
+        i = z3.Int("i!toreal")
+        arr = z3.Lambda([i], z3.ToReal(o.arr[i]))
+    f = it.ctx.uf(name, z3.ArraySort(INT, REAL), INT, INT, REAL)
+    t = f(arr, b2i(z(o.lo)), b2i(z(o.hi)))
+    if name == "seq_std":
+        it.ctx.fact(t >= 0, key=("std-nonneg", t.sexpr()))
+    models.note(it, "axiom:np.mean / np.std of a list (uninterpreted functions of the element sequence; std >= 0)")
+    return t
+
+
+def _np_mean(models, it, args, kw, fr, node):
+    return seq_stat(models, it, "seq_mean", args[0], node)
+
+
+def _np_std(models, it, args, kw, fr, node):
+    if kw:
+        raise Unsupported("np.std with keyword arguments", node)
+    return seq_stat(models, it, "seq_std", args[0], node)
+
+
+def _spec_seq_mean(self, e, fr):
+    return seq_stat(self.ctx.models, self, "seq_mean", self.ev(e.args[0], fr), e)
+
+
+def _spec_seq_std(self, e, fr):
+    return seq_stat(self.ctx.models, self, "seq_std", self.ev(e.args[0], fr), e)
+
+
+X.Interp.spec_seq_mean = _spec_seq_mean
+X.Interp.spec_seq_std = _spec_seq_std
+
+from . import arrays as _arrays  # noqa: E402
+_arrays.EXTRA_EXT["numpy.mean"] = _np_mean
+_arrays.EXTRA_EXT["numpy.std"] = _np_std
